@@ -1,7 +1,212 @@
 /-
-  C13 — initial-conditions file write/read round trip (property theorems are added below as they are proved).
+  C13 — initial-conditions file write/read round trip preserves every block's state.
+
+  Property theorems about `Model/Incon.lean` (model of t2incon.read / write / add_incon, t2blockincon)
+  over `Model/Fixed.lean` (records) and `Model/Names.lean` (fix/unfix/valid_blockname), instantiated
+  on the `t2incon` format table regenerated from /repo (`Gen/Specs.lean`).
+  Proofs: `Proofs/InconNames, InconLines, InconFile, InconRoundtrip`.
+
+  Reading guide (clause of the property → theorem):
+    "writing … and reading it back gives the same blocks in the same order,
+     each with the same primary variables (to 13 decimals), porosity, optional permeability triple,
+     optional sequence numbers, the same simulator flavour and, when not reset, the same restart
+     timing"                                   incon_roundtrip  (+ corollaries blocks_in_order, flavour_preserved,
+                                               timing_iff_not_reset, variables_to_13_decimals, integers_exact)
+    "1..12 primary variables (1..3 lines)"     incon_roundtrip (any count ≥ 1) and num_variables_needed
+    "block names survive the naming quirk in both directions"   name_written_then_read, name_read_then_written
+    "writing it again reproduces the file byte for byte"        not proved here (see the note at the end)
 -/
 import PyTough.Model.Incon
 import PyTough.Gen.Specs
+import PyTough.Proofs.InconRoundtrip
+
 namespace Props.C13
+open Py Model Model.Incon Model.Names Proofs Proofs.Incon
+
+/-! ### the record layouts of the current /repo tree -/
+
+def specOf (name : String) : List FieldSpec :=
+  match Gen.Specs.t2incon.find name with
+  | none => []
+  | some sec => match parseSpecs (sec.specs.map String.toList) with | .ok fs => fs | .error _ => []
+
+/-- `t2incon_format_specification` as regenerated from /repo on this run -/
+def theSpecs : Specs :=
+  { headerShort := specOf "header_short", headerLong := specOf "header_long", incon1 := specOf "incon1",
+    incon1Tr := specOf "incon1_toughreact", incon2 := specOf "incon2", timing := specOf "timing",
+    timingTr := specOf "timing_toughreact" }
+
+def fieldAt (fs : List FieldSpec) (k : Nat) : FieldSpec :=
+  fs.getD k { raw := [], width := 0, left := false, prec := none, typ := '?' }
+
+def theLayout : Layout :=
+  let f := fieldAt theSpecs.incon1Tr
+  { name := f 0, nseq := f 1, nadd := f 2, por := f 3, k1 := f 4, k2 := f 5, k3 := f 6, v := fieldAt theSpecs.incon2 0 }
+
+def timingLayout (fs : List FieldSpec) : TLayout :=
+  { kcyc := fieldAt fs 0, iter := fieldAt fs 1, nm := fieldAt fs 2, tstart := fieldAt fs 3, sumtim := fieldAt fs 4 }
+
+/-- the table has the shape the reader relies on: `incon1` is the first four fields of
+    `incon1_toughreact` (name `5s`, two integers, porosity, three permeabilities as reals), a value
+    line is four equal real fields, both timing records are three integers and two reals
+    (`decide` over the generated table: re-checked on every run) -/
+theorem layout_ok : LayoutOK theSpecs theLayout :=
+  ⟨by decide +kernel, by decide +kernel, by decide +kernel, by decide +kernel, by decide +kernel, by decide +kernel,
+   by decide +kernel, by decide +kernel, by decide +kernel, by decide +kernel, by decide +kernel, by decide +kernel,
+   by decide +kernel⟩
+
+theorem timing_ok : TimingOK theSpecs.timing (timingLayout theSpecs.timing) :=
+  ⟨by decide +kernel, by decide +kernel, by decide +kernel, by decide +kernel, by decide +kernel, by decide +kernel⟩
+
+theorem timing_toughreact_ok : TimingOK theSpecs.timingTr (timingLayout theSpecs.timingTr) :=
+  ⟨by decide +kernel, by decide +kernel, by decide +kernel, by decide +kernel, by decide +kernel, by decide +kernel⟩
+
+/-- what `read` returns for a file `write` produced (definition in `Proofs/InconRoundtrip.lean`):
+    the same simulator, the blocks in order with every value replaced by the reading of its own
+    written text, the permeabilities iff the flavour is TOUGHREACT, the timing iff it was written -/
+def canon (rf : ReadFn) (x : Incon Val) (reset : Bool) : Incon PVal :=
+  canonIncon rf theLayout (timingLayout theSpecs.timing) (timingLayout theSpecs.timingTr) x reset
+
+/-! ### write, then read -/
+
+/-- **Round trip.**  For every set of initial conditions in the property's quantifier (`InconWF`:
+    any number of blocks ≥ 0 with pairwise distinct five-character names that are canonical and
+    pass `valid_blockname`; ≥ 1 real primary variables per block, the same number `n` in every block,
+    `num_variables = n` passed to `read`, or nothing passed and `n ≤ 4`; porosity a real or absent;
+    `nseq/nadd` integers or absent; permeability triples of reals on any subset of the blocks; flavour
+    TOUGH2, or TOUGHREACT with at least one block carrying permeabilities; timing absent, or with
+    integer/absent counters and real times), for `reset` on or off, for either conversion
+    dictionary and `check_blocknames` on or off: if `write` succeeds (every value fits its columns,
+    possibly at reduced precision) then a fresh `t2incon(file, num_variables)` returns exactly
+    `canon x reset`. -/
+theorem incon_roundtrip (rf : ReadFn) (x : Incon Val) (nvars : Option Nat) (check reset : Bool)
+    (hwf : InconWF x nvars) {file : List Str} (hw : write theSpecs x reset = .ok file) :
+    read rf theSpecs TOUGH2 nvars check file = .ok (canon rf x reset) :=
+  read_write rf layout_ok timing_ok timing_toughreact_ok x nvars check reset hwf hw
+
+/-- the same blocks in the same order -/
+theorem blocks_in_order (rf : ReadFn) (x : Incon Val) (reset : Bool) :
+    (canon rf x reset).blocks.map (·.block) = x.blocks.map (·.block) := by
+  simp [canon, canonIncon, canonBlock, Function.comp_def]
+
+/-- the same simulator flavour -/
+theorem flavour_preserved (rf : ReadFn) (x : Incon Val) (reset : Bool) :
+    (canon rf x reset).simulator = x.simulator := rfl
+
+/-- restart timing comes back exactly when it was set and `reset` is off -/
+theorem timing_iff_not_reset (rf : ReadFn) (x : Incon Val) (reset : Bool) :
+    ((canon rf x reset).timing.isSome = true ↔ (x.timing.isSome = true ∧ reset = false)) := by
+  unfold canon canonIncon timingWritten
+  cases x.timing <;> cases reset <;> simp
+
+/-- every primary variable comes back as its printed digits: the value rounded (half-even, see
+    `Props.C02.fmtE_nearest`) to `q+1` significant digits with `q = 13` decimals, or fewer when the
+    width guard of C02 had to reduce the precision so that the value fits its 20 columns -/
+theorem variables_to_13_decimals (rf : ReadFn) (r : Rat) {s : Str}
+    (h : writeField theLayout.v (.real r) = .ok s) :
+    ∃ q, q ≤ 13 ∧ reparse rf theLayout.v (.real r) =
+      .flt (.fin (decide (r < 0)) (fmtEParts q r.num.natAbs r.den).1 ((fmtEParts q r.num.natAbs r.den).2 - q)) := by
+  have ht : theLayout.v.typ = 'e' := layout_ok.v_e
+  have hp : theLayout.v.prec.getD 6 = 13 := by decide +kernel
+  obtain ⟨q, hq, hr⟩ := roundtrip_e_real rf ht r h
+  refine ⟨q, by omega, ?_⟩
+  unfold reparse
+  rw [h]; simp only; rw [ht, hr]
+
+/-- porosities and permeabilities likewise to 9 decimals (`15.9e`) -/
+theorem porosity_to_9_decimals (rf : ReadFn) (r : Rat) {s : Str}
+    (h : writeField theLayout.por (.real r) = .ok s) :
+    ∃ q, q ≤ 9 ∧ reparse rf theLayout.por (.real r) =
+      .flt (.fin (decide (r < 0)) (fmtEParts q r.num.natAbs r.den).1 ((fmtEParts q r.num.natAbs r.den).2 - q)) := by
+  have ht : theLayout.por.typ = 'e' := layout_ok.por_e
+  have hp : theLayout.por.prec.getD 6 = 9 := by decide +kernel
+  obtain ⟨q, hq, hr⟩ := roundtrip_e_real rf ht r h
+  refine ⟨q, by omega, ?_⟩
+  unfold reparse
+  rw [h]; simp only; rw [ht, hr]
+
+/-- sequence numbers (and the timing counters) come back exactly; an absent one stays absent -/
+theorem integers_exact (rf : ReadFn) {f : FieldSpec} (ht : f.typ = 'd') :
+    (∀ (i : Int) (s : Str), writeField f (.int i) = .ok s → reparse rf f (.int i) = .int i) ∧
+    reparse rf f .none = .none := by
+  constructor
+  · intro i s h
+    unfold reparse
+    rw [h]; simp only; rw [ht, roundtrip_d_int rf ht i h]
+  · exact (readable_none rf (numeric_of_d ht)).2
+
+/-! ### `num_variables` -/
+
+/-- Without `num_variables` the reader takes exactly one line of variables per block (so files with
+    more than four variables per block need the argument — the hypothesis `NvarsOK` above). -/
+theorem num_variables_needed (rf : ReadFn) (S : Specs) (fuel : Nat) (l : Str) (rest : List Str) (acc : List PVal) :
+    readVals rf S none (fuel + 1) (l :: rest) acc =
+      (match parseString rf S.incon2 l with
+       | .ok vals => .ok (acc ++ popNones vals, rest)
+       | .error e => .error e) := by
+  unfold readVals
+  simp only [readline, bind, Except.bind, pure, Except.pure]
+  cases parseString rf S.incon2 l <;> rfl
+
+/-! ### block names and the (A3, I2) quirk -/
+
+/-- memory → file → memory: a canonical name is written by `unfix_blockname` and read back by
+    `fix_blockname` unchanged.  `Canonical` excludes exactly two shapes, both replayed below: the
+    *file* form "digit, blank, digit" and a zero-padded number after a non-digit (`abc07`). -/
+theorem name_written_then_read (n : Str) (h : Canonical n) : fixBlockname (unfixBlockname n) = .ok n :=
+  fix_unfix_canonical n h
+
+/-- file → memory → file: a name as the simulator prints it is re-written identically -/
+theorem name_read_then_written (m : Str) (hlen : m.length = 5) (h : unfixBlockname m = m) :
+    ∃ n, fixBlockname m = .ok n ∧ unfixBlockname n = m ∧ n.length = 5 :=
+  unfix_fix_fileform m hlen h
+
+/-- whatever `fix_blockname` (hence `mulgrid.block_name`) returns satisfies the first half of `Canonical` -/
+theorem fixed_names_have_no_blank (m : Str) (hlen : m.length = 5) :
+    ∃ a b c d e, fixBlockname m = .ok [a, b, c, d, e] ∧ ¬ (isDigit c = true ∧ isDigit e = true ∧ d = ' ') :=
+  fix_result_no_blank m hlen
+
+example : Canonical "ab107".toList ∧ Canonical "  a 1".toList ∧ Canonical " a100".toList ∧ Canonical "ATM 0".toList := by decide
+example : fixBlockname (unfixBlockname "abc07".toList) = .ok "abc 7".toList := by decide   -- excluded shape 2
+example : fixBlockname (unfixBlockname "ab1 7".toList) = .ok "ab107".toList := by decide   -- excluded shape 1
+
+/-! ### non-vacuity: a concrete object meets `InconWF`, is written, and read back -/
+
+def exBlock : Block Val :=
+  { block := "ab107".toList, vars := [.real (-2600), .real (mkRat 1 (10 ^ 100))], porosity := .real (mkRat 1 10),
+    permeability := none, nseq := .none, nadd := .int 3 }
+def exIncon : Incon Val := { simulator := TOUGH2, blocks := [exBlock], timing := none }
+
+example : InconWF exIncon none := by
+  refine ⟨?_, by decide, Or.inl rfl, by intro t h; cases h⟩
+  intro b hb
+  simp only [exIncon, List.mem_singleton] at hb
+  subst hb
+  refine ⟨⟨by decide, by decide, by decide +kernel, by decide, by decide, ?_, Or.inr ⟨_, rfl⟩, Or.inl rfl,
+    Or.inr ⟨_, rfl⟩, by intro k h; cases h⟩, by unfold NvarsOK; decide⟩
+  intro x hx
+  simp only [exBlock, List.mem_cons, List.not_mem_nil, or_false] at hx
+  rcases hx with rfl | rfl <;> exact ⟨_, rfl⟩
+
+example : write theSpecs exIncon false = .ok
+    ["INCON\n".toList, "ab1 7         31.000000000e-01\n".toList,
+     "-2.6000000000000e+031.0000000000000e-100\n".toList, "\n".toList, "\n".toList] := by decide +kernel
+
+example : (read .fortran theSpecs TOUGH2 none true
+    ["INCON\n".toList, "ab1 7         31.000000000e-01\n".toList,
+     "-2.6000000000000e+031.0000000000000e-100\n".toList, "\n".toList, "\n".toList]).map (fun x => x.blocks.map (·.block))
+    = .ok ["ab107".toList] := by decide +kernel
+
+/-
+  Not proved: "writing it again reproduces the file byte for byte".  In the model (exact decimals)
+  and on the real code it is *false* at two kinds of points that the oracle replays:
+    * a value that needed the width guard's reduced precision and carries to a shorter exponent
+      (`-9.99999999999995e-100` is written ` -1.000000000000e-99`, re-read and re-written
+      `-1.0000000000000e-99`);
+    * the long header prints `sumtim` at 6 decimals from the in-memory value, the second generation
+      from the 9-decimal value of the timing record (`1.2345644999`: `1.234564e+00` then `1.234565e+00`).
+  Outside these the second generation is compared byte for byte by the correspondence facet
+  `incon_rewrite` and by the oracle on every run.
+-/
+
 end Props.C13
